@@ -138,7 +138,7 @@ fn run_huge(extra: u32, ops: &[HOp], obs: &mut Obs) -> Result<(), Failure> {
                     ));
                 }
                 if n > 0 {
-                    let b = unsafe { sub.read_u8_unchecked() };
+                    let b = guard(|| unsafe { sub.read_u8_unchecked() }).map_err(|c| fail("huge-slice", "subreader", format!("{what}: reading the subreader's first octet: {}", c.text())))?;
                     if b != at(pos) {
                         return Err(fail("huge-slice", "subreader", format!("{what}: first octet of the subreader is {b:#04x}, the slice has {:#04x} there", at(pos))));
                     }
@@ -168,7 +168,7 @@ fn run_huge(extra: u32, ops: &[HOp], obs: &mut Obs) -> Result<(), Failure> {
                 if rem < 1 {
                     continue;
                 }
-                let b = unsafe { r.read_u8_unchecked() };
+                let b = guard(|| unsafe { r.read_u8_unchecked() }).map_err(|c| fail("huge-slice", "fixed-read", format!("{what}: {}", c.text())))?;
                 if b != at(pos) {
                     return Err(fail("huge-slice", "fixed-read", format!("{what}: read {b:#04x}, the slice has {:#04x}", at(pos))));
                 }
@@ -178,7 +178,7 @@ fn run_huge(extra: u32, ops: &[HOp], obs: &mut Obs) -> Result<(), Failure> {
                 if rem < 4 {
                     continue;
                 }
-                let v = unsafe { r.read_u32_be_unchecked() };
+                let v = guard(|| unsafe { r.read_u32_be_unchecked() }).map_err(|c| fail("huge-slice", "fixed-read", format!("{what}: {}", c.text())))?;
                 let want = u32::from_be_bytes([at(pos), at(pos + 1), at(pos + 2), at(pos + 3)]);
                 if v != want {
                     return Err(fail("huge-slice", "fixed-read", format!("{what}: read {v:#010x}, the slice has {want:#010x}")));
